@@ -3,6 +3,7 @@ package main
 // Calls: builtins, trusted standard-library contracts, inlining, contract calls, defers.
 
 import (
+	"go/token"
 	"fmt"
 	"sort"
 	"go/types"
@@ -879,6 +880,13 @@ func (f *frame) siteAsserts(x *ssa.Call) {
 						name = callee.Name()
 					} else if c.Call.IsInvoke() {
 						name = c.Call.Method.Name()
+					} else if u, ok := c.Call.Value.(*ssa.UnOp); ok && u.Op == token.MUL {
+						// a call through a func-typed field: the field's name
+						if fa, ok := u.X.(*ssa.FieldAddr); ok {
+							if st, ok := fa.X.Type().Underlying().(*types.Pointer).Elem().Underlying().(*types.Struct); ok {
+								name = st.Field(fa.Field).Name()
+							}
+						}
 					}
 					if name != "" {
 						all = append(all, ent{in, name, int(c.Pos())})
